@@ -41,12 +41,19 @@ def one_twin(tid, tier):
         os.makedirs(root + "/out")
         env = dict(os.environ, VERIF_REPO=root, VERIF_OUT=root + "/out")
         noisy = []
+        try:
+            undecided = set(json.load(open(os.path.join(d, "meta.json"))).get("undecided_in", []))
+        except Exception:
+            undecided = set()
+        und = []
         for i in range(1, 21):
             p = f"C{i:02d}"
             rr = subprocess.run([V + "/check", p, "--tier", tier], capture_output=True, text=True, env=env)
-            if rr.returncode != 0:
+            if rr.returncode == 2 and p in undecided and "VIOLATION" not in rr.stdout:
+                und.append(p)             # recorded limitation: the analysis stops (undecided), it never alarms
+            elif rr.returncode != 0:
                 noisy.append(f"{p} rc={rr.returncode}")
-        return tid, not noisy, "; ".join(noisy)
+        return tid, not noisy, "; ".join(noisy) or (("undecided (exit 2, as recorded): " + ",".join(und)) if und else "")
     finally:
         shutil.rmtree(root, ignore_errors=True)
 
